@@ -800,7 +800,10 @@ impl HuffmanDecoder {
             None => return Err(ZiporaError::invalid_data("Empty Huffman tree")),
         };
 
-        let mut result = Vec::with_capacity(output_length);
+        // `output_length` is often read from the stream itself (HuffmanCompressor::decompress): at most one
+        // symbol per input bit (+1 for the final leaf) can come out, so never reserve more than that
+        let max_symbols = encoded_data.len().saturating_mul(8).saturating_add(1);
+        let mut result = Vec::with_capacity(output_length.min(max_symbols));
         let mut current_node = root;
 
         for &byte in encoded_data {
@@ -1346,7 +1349,10 @@ impl ContextualHuffmanEncoder {
             context_map.insert(context, tree_idx);
         }
 
-        // Read trees
+        // Read trees (every tree takes at least its 4-byte size field: bound the untrusted count)
+        if tree_count > (data.len() - offset) / 4 {
+            return Err(ZiporaError::invalid_data("Tree count exceeds available data"));
+        }
         let mut trees = Vec::with_capacity(tree_count);
         for _ in 0..tree_count {
             if offset + 4 > data.len() {
@@ -1363,6 +1369,14 @@ impl ContextualHuffmanEncoder {
 
             let tree = HuffmanTree::deserialize(tree_data)?;
             trees.push(tree);
+        }
+
+        // The decoders index `trees` with tree 0 and with the values of the context map
+        if trees.is_empty() {
+            return Err(ZiporaError::invalid_data("Contextual Huffman model without trees"));
+        }
+        if context_map.values().any(|&idx| idx >= trees.len()) {
+            return Err(ZiporaError::invalid_data("Context map refers to a missing tree"));
         }
 
         Ok(Self {
@@ -1970,8 +1984,9 @@ impl ContextualHuffmanDecoder {
 
         // Decode remaining symbols with context
         while result.len() < output_length && byte_idx < encoded_data.len() {
-            // SAFETY: First symbol pushed at line 1862 before loop, so result is always non-empty
-            let context = *result.last().unwrap() as u32;
+            // the first symbol may have failed to decode (truncated stream): nothing to condition on
+            let Some(&last) = result.last() else { break };
+            let context = last as u32;
             let tree_idx = self.encoder.context_map.get(&context).copied().unwrap_or(0);
             let tree = &self.encoder.trees[tree_idx];
             
@@ -2008,6 +2023,9 @@ impl ContextualHuffmanDecoder {
         // Decode remaining symbols with 2-symbol context
         while result.len() < output_length && byte_idx < encoded_data.len() {
             let len = result.len();
+            if len < 2 {
+                break; // the first two symbols did not decode (truncated stream)
+            }
             let context = ((result[len - 2] as u32) << 8) | (result[len - 1] as u32);
             let tree_idx = self.encoder.context_map.get(&context).copied().unwrap_or(0);
             let tree = &self.encoder.trees[tree_idx];
